@@ -155,10 +155,13 @@ func WriteTriangles(wg *sync.WaitGroup, triangles *[]*Triangle3) chan<- []*Trian
 		defer wg.Done()
 		// read triangles from the channel and append them to the slice
 		for ts := range c {
+			verifEv("tc.recv", len(ts), len(*triangles))
 			for _, t := range ts {
 				*triangles = append(*triangles, t)
 			}
+			verifEv("tc.done", len(ts), len(*triangles))
 		}
+		verifEv("tc.exit", 0, len(*triangles))
 	}()
 
 	return c
@@ -200,11 +203,14 @@ func NewTriangle3Buffer(out chan<- []*Triangle3) Triangle3Writer {
 
 func (a *Triangle3Buffer) Write(in []*Triangle3) error {
 	a.lock.Lock()
+	verifEv("tb.write", len(in), len(a.buf))
 	a.buf = append(a.buf, in...)
 	if len(a.buf) >= tBufferSize {
+		verifEv("tb.send", len(a.buf), 0)
 		a.out <- a.buf
 		a.buf = make([]*Triangle3, 0, tBufferSize+tBufferMargin)
 	}
+	verifEv("tb.unlock", len(a.buf), 0)
 	a.lock.Unlock()
 	return nil
 }
@@ -212,10 +218,13 @@ func (a *Triangle3Buffer) Write(in []*Triangle3) error {
 // Close flushes out any remaining triangles in the buffer.
 func (a *Triangle3Buffer) Close() error {
 	a.lock.Lock()
+	verifEv("tb.close", len(a.buf), 0)
 	if len(a.buf) != 0 {
+		verifEv("tb.send", len(a.buf), 1)
 		a.out <- a.buf
 		a.buf = nil
 	}
+	verifEv("tb.unlock", len(a.buf), 1)
 	a.lock.Unlock()
 	return nil
 }
